@@ -6,6 +6,7 @@ import (
 	"encoding/hex"
 	"fmt"
 	"math"
+	"strings"
 
 	"github.com/ctessum/geom"
 
@@ -313,6 +314,7 @@ const maxInput = 65536
 type wkbEmitter struct {
 	out *bufio.Writer
 	r   *vproto.Rng
+	r2  *vproto.Rng // private stream of the wkbn lines (so that adding them did not shift the other generators)
 	n   int
 }
 
@@ -344,6 +346,82 @@ func (w *wkbEmitter) all(b []byte) {
 	fmt.Fprintf(w.out, "hex s%s\n", hex.EncodeToString([]byte(h)))
 	fmt.Fprintf(w.out, "wkbr %d x%s\n", []int{1, 3, 7, 16, 4096}[w.r.Intn(5)], hex.EncodeToString(b))
 	w.stream(b, []string{"E", "D", "U", "C", "X"}[w.r.Intn(5)])
+	if len(b) <= 2048 {
+		w.scriptRandom(b)
+	}
+}
+
+// ---------------------------------------------------------------------------------------------
+// wkbn: wkb.Read on a reader whose errors are NOT sticky. `wkbn <fin> <ev>...`: each event is a
+// letter and hex data — d: data, no error; c / e / u: data and, with its last byte, the reader's own
+// error / io.EOF / io.ErrUnexpectedEOF (no data: the error alone; `d` alone: an empty read (0, nil)).
+// After the last event the reader answers (0, fin) for ever, fin = C | E | U.
+
+func evTok(kind byte, b []byte) string { return string(kind) + hex.EncodeToString(b) }
+
+// dataEvents: b as 1..3 error-free events, sometimes with an empty read in between
+func (w *wkbEmitter) dataEvents(b []byte) []string {
+	var evs []string
+	for len(b) > 0 {
+		n := len(b)
+		if n > 1 && w.r2.Intn(3) > 0 && len(evs) < 2 {
+			n = 1 + w.r2.Intn(n-1)
+		}
+		evs = append(evs, evTok('d', b[:n]))
+		b = b[n:]
+		if w.r2.Intn(5) == 0 {
+			evs = append(evs, "d")
+		}
+	}
+	return evs
+}
+
+// scriptAt: ALL of b is in the script; an error of the given kind is raised at offset k, either alone
+// (a Read that returns (0, err)) or together with the bytes that end at k. io.ReadFull drops it in the
+// second form exactly when k is the end of a request; the reader then carries on.
+func (w *wkbEmitter) scriptAt(b []byte, k int, kind byte, alone bool) {
+	var evs []string
+	if alone {
+		evs = append(w.dataEvents(b[:k]), evTok(kind, nil))
+	} else {
+		cut := 0
+		if k > 1 && w.r2.Intn(3) > 0 {
+			cut = w.r2.Intn(k)
+		}
+		evs = append(w.dataEvents(b[:cut]), evTok(kind, b[cut:k]))
+	}
+	evs = append(evs, w.dataEvents(b[k:])...)
+	fmt.Fprintf(w.out, "wkbn %s %s\n", []string{"E", "C", "U"}[w.r2.Intn(3)], strings.Join(evs, " "))
+}
+
+// scriptRandom: 1..3 errors at random offsets (with data or alone, any kind), pieces of random size
+func (w *wkbEmitter) scriptRandom(b []byte) {
+	var evs []string
+	rest := b
+	for i, n := 0, 1+w.r2.Intn(3); i < n; i++ {
+		k := 0
+		if len(rest) > 0 {
+			k = w.r2.Intn(len(rest) + 1)
+			if w.r2.Intn(4) == 0 && len(rest) >= 9 {
+				k = []int{1, 5, 9}[w.r2.Intn(3)] // request boundaries of every header
+			}
+		}
+		kind := "cceu"[w.r2.Intn(4)]
+		if w.r2.Bool() {
+			evs = append(evs, w.dataEvents(rest[:k])...)
+			evs = append(evs, evTok(kind, nil))
+		} else {
+			cut := 0
+			if k > 1 {
+				cut = w.r2.Intn(k)
+			}
+			evs = append(evs, w.dataEvents(rest[:cut])...)
+			evs = append(evs, evTok(kind, rest[cut:k]))
+		}
+		rest = rest[k:]
+	}
+	evs = append(evs, w.dataEvents(rest)...)
+	fmt.Fprintf(w.out, "wkbn %s %s\n", []string{"E", "C", "U"}[w.r2.Intn(3)], strings.Join(evs, " "))
 }
 
 // stream: wkb.Read on a reader that is not a slice: pieces of varying size, empty reads, and a
@@ -423,8 +501,8 @@ func zoo() []geom.Geom {
 	}
 }
 
-func genWKB(out *bufio.Writer, r *vproto.Rng, tier string) {
-	w := &wkbEmitter{out: out, r: r}
+func genWKB(out *bufio.Writer, r *vproto.Rng, tier string, seed uint64) {
+	w := &wkbEmitter{out: out, r: r, r2: vproto.NewRng(vproto.NewRng(seed ^ 0xC07C07).U64())}
 	thorough := tier == "thorough"
 	scale := 2
 	if thorough {
@@ -486,6 +564,16 @@ func genWKB(out *bufio.Writer, r *vproto.Rng, tier string) {
 					// the reader fails at EVERY offset, in every way
 					for _, end := range []string{"E", "D", "U", "C", "X"} {
 						w.stream(e.b[:k], end)
+					}
+				}
+				// a NON-sticky error at EVERY offset of the complete encoding: with the bytes that end
+				// there (dropped iff a request ends there) and alone (always fatal while data is missing)
+				if le || k%3 == zi%3 {
+					kind := "ce"[(k+zi)%2]
+					w.scriptAt(e.b, k, kind, false)
+					w.scriptAt(e.b, k, "ceu"[(k+zi)%3], true)
+					if le {
+						w.scriptAt(e.b, k, "ec"[(k+zi)%2], false)
 					}
 				}
 			}
